@@ -131,6 +131,10 @@ void LLVMVisitor::init(const vec_basic &inputs, const vec_basic &outputs,
     llvm::InitializeNativeTargetAsmParser();
     context = make_unique<llvm::LLVMContext>();
     symbols = inputs;
+    // a previous init that threw leaves these filled with values of a
+    // destroyed context
+    symbol_ptrs.clear();
+    replacement_symbol_ptrs.clear();
 
     // Create some module to put our function into it.
     std::unique_ptr<llvm::Module> module
